@@ -253,7 +253,7 @@ fn fixtures<V: Full>() -> Arc<Fx> {
 }
 
 /// key objects parsed from bytes and never used before (every call gives cold keys)
-fn make_shared<V: Full>() -> Shared<V> {
+pub fn make_shared<V: Full>() -> Shared<V> {
     let fx = fixtures::<V>();
     Shared {
         local: keys::local::<V>(&fx.local_b),
@@ -273,7 +273,7 @@ pub enum Res {
     Panic(String),
 }
 
-fn run_op<V: Full>(op: Op, k: &Shared<V>) -> Res {
+pub fn run_op<V: Full>(op: Op, k: &Shared<V>) -> Res {
     let r = subject(|| -> Res {
         let e = |x: paseto_core::PasetoError| format!("Err({})", payload::err_kind(&x));
         let owned = V::RNG != RngKind::AwsLc;
